@@ -282,11 +282,90 @@ def _expected_meas(spec):
 
 
 # ------------------------------------------------------------------ observations on one group through one path
+def _histories(ctx, spec, g, path, ct, reqs, pending, case):
+    """call-order histories on copies of a parsed group that has NOT been decoded yet: per-annotation access first (last,
+    first, middle, then every number), then the whole group, then per-annotation again; outside numbers in between;
+    measurement accessors in both orders.  Everything is compared with the stored input and with the model's history."""
+    from copy import deepcopy
+    want, _ = _expected_arrays(spec)
+    n = len(want)
+    wm = _expected_meas(spec)
+    r = ctx.rng('hist', hash((case.get('idx', 0), case.get('gidx', 0), spec['number'], path)) % (1 << 30))
+    ks = [n, 1, (n + 1) // 2] + ([k for k in range(1, n + 1)] if n <= 8 else r.sample(range(1, n + 1), 6))
+    orders = {
+        'nth-first': [('nth', k) for k in ks] + [('whole',)] + [('nth', n), ('nth', 1)],
+        'outside-first': [('nth', 0), ('nth', n + 1), ('nth', n), ('whole',), ('nth', n)],
+        'last-only': [('nth', n)],
+    }
+    if n > 1:
+        orders['shuffled'] = [('nth', k) for k in r.sample(range(1, n + 1), min(n, 5))] + [('whole',)]
+    sv = None
+    for oname, acc in orders.items():
+        d = deepcopy(g)
+        if len(getattr(d, '_graphic_data', {})) != 0:
+            ctx.note('history: group already decoded, skipped')
+            return
+        if sv is None:
+            st0, sv = _try(_stored_view, d)
+            if st0 != 'ok':
+                return
+        impl = []
+        for a in acc:
+            c2 = dict(case, what='history', order=oname, access=list(a))
+            ctx.case(path=path + '/history', history=oname, nontrivial_key=('hist', oname, spec['gtype'], spec['zclass'], min(n, 6), path))
+            if a[0] == 'whole':
+                st, res = _try(d.get_graphic_data, ct)
+                if st != 'ok' or len(res) != n or any(not _same(x, w) for x, w in zip(res, want)):
+                    ctx.fail(c2, f'whole-group access after {oname} differs from the stored input ({res if st != "ok" else ""})',
+                             site=f'history/{path}')
+                impl.append(['ok', [[_tok(row) for row in np.asarray(x)] for x in res]] if st == 'ok' else ['err', _kind(res)])
+            else:
+                k = a[1]
+                st, res = _try(d.get_coordinates, k, ct)
+                if 1 <= k <= n:
+                    if st != 'ok' or not _same(res, want[k - 1]):
+                        ctx.fail(c2, {'what': f'annotation {k} of {n} read first on a freshly parsed group ({oname})',
+                                      'got': res if st != 'ok' else np.asarray(res).tolist(), 'want': want[k - 1].tolist()},
+                                 site=f'history/{path}')
+                elif st == 'ok':
+                    ctx.fail(c2, f'annotation number {k} outside 1..{n} accepted on a freshly parsed group', site=f'history/{path}')
+                impl.append(['ok', [_tok(row) for row in np.asarray(res)]] if st == 'ok' else ['err', _kind(res)])
+        reqs.append(('history', {'gtype': spec['gtype'], 'enc': sv, 'ct': ct,
+                                 'accesses': [['whole'] if a[0] == 'whole' else ['nth', a[1]] for a in acc]}))
+        pending.append((dict(case, what='history', order=oname), ('ok', impl)))
+    # measurement accessors: by name first, then all; per item get_values first, then the matrix
+    if spec['meas']:
+        for oname in ('name-first', 'values-first'):
+            d = deepcopy(g)
+            c2 = dict(case, what='history-meas', order=oname)
+            ctx.case(path=path + '/history-meas', history=oname)
+            ok = True
+            if oname == 'name-first':
+                for t in range(len(MEAS_NAMES)):
+                    st, res = _try(d.get_measurements, _code(MEAS_NAMES[t]))
+                    sel = [j for j, m in enumerate(spec['meas']) if m['name'] == t]
+                    ok &= st == 'ok' and np.asarray(res[1]).shape == (n, len(sel)) and \
+                        all(_same(np.asarray(res[1])[:, q], wm[j]) for q, j in enumerate(sel))
+            else:
+                for j, ms in enumerate(d.MeasurementsSequence):
+                    st, v = _try(ms.get_values, n)
+                    ok &= st == 'ok' and _same(v, wm[j])
+            st, res = _try(d.get_measurements)
+            ok &= st == 'ok' and np.asarray(res[1]).shape == (n, len(wm)) and all(_same(np.asarray(res[1])[:, j], w) for j, w in enumerate(wm))
+            st2, gd = _try(d.get_graphic_data, ct)
+            ok &= st2 == 'ok' and len(gd) == n and all(_same(x, w) for x, w in zip(gd, want))
+            if not ok:
+                ctx.fail(c2, 'measurement accessors in this order (on a freshly parsed group) differ from the stored input',
+                         site=f'history-meas/{path}')
+
+
 def _observe_group(ctx, spec, g, path, ct, reqs, pending, base):
     """g: AnnotationGroup (fresh or parsed).  Oracle on graphic data, per-annotation access and measurements."""
     want, want_dt = _expected_arrays(spec)
     n = len(want)
     case = dict(base, path=path, group=spec['number'])
+    if not path.startswith('fresh'):
+        _histories(ctx, spec, g, path, ct, reqs if path == 'annread' else [], pending if path == 'annread' else [], case)
     prof = (min(spec['counts']), max(spec['counts']))
     key = (spec['gtype'], spec['dim'], spec['zclass'], spec['dtype'], min(n, 10), prof, path)
     ctx.case(sample=dict(case, gtype=spec['gtype'], counts=spec['counts'][:8], dtype=spec['dtype'], zclass=spec['zclass'])
@@ -723,7 +802,7 @@ def _malformed_cases(ctx, idx):
     kind = ['closed-polygon', 'point-count', 'non-finite', 'meas-more', 'meas-fewer', 'meas-single', 'meas-nan-padded',
             'meas-nan-short', 'mixed-dims', 'wrong-columns', 'one-dimensional', 'number', 'empty', 'unknown-type',
             'sop-numbering', 'meas-wrong-type', 'meas-parsed-single', 'meas-parsed-count', 'non-finite-shared-z',
-            'bad-dtype'][idx % 20]
+            'bad-dtype', 'compensating-counts'][idx % 21]
     from highdicom.ann import Measurements
     n = len(s['counts'])
 
@@ -765,22 +844,40 @@ def _malformed_cases(ctx, idx):
         return d, lambda: _build_group(s, graphic_data=gd), _model_args(s['gtype'], gd)
     if kind == 'non-finite-shared-z':
         # 3-D data whose z is the SAME non-finite value for every point of the group (it would become CommonZCoordinateValue)
-        gt = GTYPES[(idx // 20) % 5]
+        gt = GTYPES[(idx // 21) % 5]
         cnt = _gen_counts(r, gt)
-        if (idx // 100) % 2 == 0:
+        if (idx // 105) % 2 == 0:
             cnt = cnt[:1]
         fdt = np.float64 if r.random() < 0.5 else np.float32
         gd, _ = _gen_coords(r, ctx.np_rng('bad', idx), gt, cnt, 3, 'const', 'f8')
-        bad = [np.nan, np.inf, -np.inf][(idx // 20) % 3]
+        bad = [np.nan, np.inf, -np.inf][(idx // 21) % 3]
         gd = [a.astype(fdt) for a in gd]
         for a in gd:
             a[:, 2] = bad
         s['meas'] = []
         d.update(gtype=gt, dim=3, n=len(cnt), value=str(bad))
         return d, lambda: _build_group(s, graphic_data=gd, graphic_type=gt), _model_args(gt, gd)
+    if kind == 'compensating-counts':
+        # fixed-size graphic types: at least two annotations have a wrong number of points but the TOTAL is k * n
+        gt = ['RECTANGLE', 'ELLIPSE', 'POINT'][(idx // 21) % 3]
+        k = FIXED[gt]
+        n2 = r.choice([2, 2, 3, 4, 6])
+        cnt = [k] * n2
+        i, j = r.sample(range(n2), 2)
+        delta = r.randint(1, k)                     # k itself: an empty array next to a double one (8+0, 2+0)
+        cnt[i] += delta
+        cnt[j] -= delta
+        fdt = r.choice([np.float32, np.float64])
+        gd = [(ctx.np_rng('bad', idx * 64 + q).integers(-2000, 2000, size=(c, dim)) / 4.0).astype(fdt) for q, c in enumerate(cnt)]
+        if dim == 3 and r.random() < 0.5:
+            for a in gd:
+                a[:, 2] = 7.5
+        s['meas'] = []
+        d.update(gtype=gt, n=n2, counts=cnt)
+        return d, lambda: _build_group(s, graphic_data=gd, graphic_type=gt), _model_args(gt, gd)
     if kind == 'bad-dtype':
         # dtypes that are neither integer nor float of at most double precision
-        bd = ['c8', 'c16', 'g', '?', 'O', 'U8', 'M8[s]'][(idx // 20) % 7]
+        bd = ['c8', 'c16', 'g', '?', 'O', 'U8', 'M8[s]'][(idx // 21) % 7]
         src = [np.round(a.astype(np.float64)) for a in s['coords']]
         if bd == '?':
             gd = [(a > 0) for a in src]
